@@ -5,12 +5,25 @@
 //! Byte formats are "selector prefix + payload" so that corpus files are easy
 //! to produce from the harness' own generators (`verif corpus`).
 
-use crate::props::{c05, c06, c07, c13, c16};
+use crate::gen::lzma2::{concretize_chunks, AbsChunk, L2Cfg};
+use crate::gen::program::{concretize, AbsOp, ConcCfg, LitKind};
+use crate::gen::xz::{XzCase, XzCaseBlock};
+use crate::props::{c01, c02, c03, c05, c06, c07, c13, c16};
+use crate::refmodel::model::Props;
 use crate::refmodel::lzma2::Chunk;
 use crate::runner::{Judgement, Known, LocalStats, Property};
 use crate::sut::{Call, Opts, ReaderKind, USize};
 
-pub const TARGETS: [&str; 5] = ["fz_stream_diff", "fz_total", "fz_reader_diff", "fz_stream_calls", "fz_xz_sealed"];
+pub const TARGETS: [&str; 8] = [
+    "fz_stream_diff",
+    "fz_total",
+    "fz_reader_diff",
+    "fz_stream_calls",
+    "fz_xz_sealed",
+    "fz_program",
+    "fz_chunks",
+    "fz_xz_valid",
+];
 
 pub fn property_of(target: &str) -> &'static str {
     match target {
@@ -19,6 +32,9 @@ pub fn property_of(target: &str) -> &'static str {
         "fz_reader_diff" => "C13",
         "fz_stream_calls" => "C16",
         "fz_xz_sealed" => "C06",
+        "fz_program" => "C01",
+        "fz_chunks" => "C02",
+        "fz_xz_valid" => "C03",
         _ => "?",
     }
 }
@@ -47,6 +63,147 @@ fn n_from(b: &[u8]) -> u64 {
         2 => 1 << 40,
         _ => u64::MAX - b[1] as u64,
     }
+}
+
+// ---------------------------------------------------------------------------
+// structure-aware targets: bytes -> abstract symbol programs / chunk lists
+
+/// 4 bytes per op: [kind, a, b, c]
+fn ops_from(data: &[u8]) -> Vec<AbsOp> {
+    let mut v = Vec::new();
+    let mut i = 0;
+    let mut pending_run: Option<u16> = None;
+    while i + 4 <= data.len() && v.len() < 200 {
+        let (k, a, b, c) = (data[i], data[i + 1], data[i + 2], data[i + 3]);
+        i += 4;
+        let sel = ((b as u16) << 8) | c as u16;
+        let op = match k % 10 {
+            0 | 1 => AbsOp::Lit(LitKind::Given, a),
+            2 => AbsOp::Lit(LitKind::MatchFlip(a % 8), b),
+            3 => AbsOp::Lit(if a % 2 == 0 { LitKind::MatchByte } else { LitKind::Noise }, b),
+            4 | 5 => AbsOp::Match { dclass: a % 7, dsel: sel, lclass: (a >> 3) % 7, lsel: sel.rotate_left(5) },
+            6 => AbsOp::ShortRep,
+            7 | 8 => AbsOp::Rep { idx: a % 4, lclass: (a >> 2) % 7, lsel: sel },
+            _ => {
+                pending_run = Some(1 + (sel % 200));
+                continue;
+            }
+        };
+        match pending_run.take() {
+            Some(kk) => v.push(AbsOp::Run { k: kk, op: Box::new(op) }),
+            None => v.push(op),
+        }
+    }
+    v
+}
+
+fn props_from(b: u8, lzma2: bool) -> Props {
+    let p = Props::from_byte(b % 225).unwrap();
+    if lzma2 && p.lc + p.lp > 4 {
+        Props::new(p.lc.min(4 - p.lp.min(4)), p.lp.min(4), p.pb)
+    } else {
+        p
+    }
+}
+
+// C01: [props, container/dict, term, redeclare, ops...]
+pub fn c01_case(data: &[u8]) -> Option<c01::Case> {
+    if data.len() < 4 {
+        return None;
+    }
+    let props = props_from(data[0], false);
+    let dicts_raw = [1u32, 2, 3, 4, 5, 7, 8, 16, 17, 63, 64, 255, 300, 4095, 4096, 65536];
+    let dicts_hdr = [0u32, 1, 4095, 4096, 4097, 5000, 8192, 65536, 1 << 23, 1 << 31, 0xFFFF_FFFF];
+    let (container, dict) = match data[1] % 4 {
+        0 => (c01::Container::Header13, dicts_hdr[(data[1] >> 2) as usize % dicts_hdr.len()]),
+        1 => (c01::Container::Header5, dicts_hdr[(data[1] >> 2) as usize % dicts_hdr.len()]),
+        2 => (c01::Container::Raw, dicts_raw[(data[1] >> 2) as usize % dicts_raw.len()]),
+        _ => (c01::Container::RawReset { init: (data[1] >> 2) as u64 }, dicts_raw[(data[3] >> 2) as usize % dicts_raw.len()]),
+    };
+    let eff = c01::effective_dict(container, dict);
+    let ops = concretize(&ops_from(&data[4..]), ConcCfg { dict: eff, max_out: 30_000, max_ops: 2_000 });
+    Some(c01::Case {
+        props,
+        dict,
+        ops,
+        term: match data[2] % 5 {
+            0 | 1 => crate::props::common::Term::Marker(2 + (data[2] as u32 >> 3) % 9),
+            2 | 3 => crate::props::common::Term::Size,
+            _ => crate::props::common::Term::Both(2),
+        },
+        container,
+        redeclare_sel: ((data[3] as u16) << 8) | data[2] as u16,
+    })
+}
+
+/// chunk list: [kind, p0, p1, p2, nops] + 4*nops bytes
+fn chunks_from(data: &[u8], max_total: usize) -> Vec<crate::refmodel::lzma2::Chunk> {
+    let mut abs = Vec::new();
+    let mut i = 0;
+    while i + 5 <= data.len() && abs.len() < 300 {
+        let (k, p0, p1, p2, n) = (data[i], data[i + 1], data[i + 2], data[i + 3], data[i + 4]);
+        i += 5;
+        if k % 4 == 0 {
+            abs.push(AbsChunk::Raw {
+                reset_dict: p0 % 5 == 0,
+                len_class: if p1 % 16 == 0 { 2 + p1 % 3 } else { p1 % 2 },
+                len_sel: ((p1 as u16) << 8) | p2 as u16,
+                fill: p2 % 3,
+                seed: p0,
+            });
+        } else {
+            let nops = (n as usize % 48).min((data.len() - i) / 4);
+            let prog = ops_from(&data[i..i + 4 * nops]);
+            i += 4 * nops;
+            abs.push(AbsChunk::Lzma {
+                reset: k >> 6,
+                props: props_from(p0, true),
+                lead: p1,
+                prog,
+                exact64k: if p2 % 64 == 0 { 1 + (p2 >> 6) } else { 0 },
+            });
+        }
+    }
+    concretize_chunks(&abs, L2Cfg { max_total, max_chunk_ops: 2_000 })
+}
+
+pub fn c02_case(data: &[u8]) -> Option<c02::Case> {
+    if data.len() < 6 {
+        return None;
+    }
+    Some(c02::Case {
+        chunks: chunks_from(&data[1..], 140_000),
+        xz_check: [0u8, 1, 4][data[0] as usize % 3],
+    })
+}
+
+// C03: [check, nblocks, then per block: flags, pad, dict_extra, len_lo, len_hi, chunk bytes...]
+pub fn c03_case(data: &[u8]) -> Option<XzCase> {
+    if data.len() < 2 {
+        return None;
+    }
+    let check = [0u8, 1, 4][data[0] as usize % 3];
+    let nblocks = (data[1] % 6) as usize;
+    let mut blocks = Vec::new();
+    let mut i = 2;
+    for _ in 0..nblocks {
+        if i + 5 > data.len() {
+            break;
+        }
+        let (flags, pad, de, lo, hi) = (data[i], data[i + 1], data[i + 2], data[i + 3], data[i + 4]);
+        i += 5;
+        let n = ((((hi as usize) << 8) | lo as usize) % 600).min(data.len() - i);
+        let chunks = chunks_from(&data[i..i + n], 20_000);
+        i += n;
+        blocks.push(XzCaseBlock {
+            has_packed: flags & 1 != 0,
+            has_unpacked: flags & 2 != 0,
+            extra_pad4: if pad % 4 == 0 { pad } else { pad % 4 },
+            dict_extra: de % 14,
+            chunks,
+        });
+    }
+    Some(XzCase { check, blocks })
 }
 
 // ---------------------------------------------------------------------------
@@ -375,6 +532,9 @@ pub fn judge_bytes(target: &str, data: &[u8]) -> Option<(String, String, serde_j
         "fz_reader_diff" => go!(c13::C13, c13_case(data)),
         "fz_stream_calls" => go!(c16::C16, c16_case(data)),
         "fz_xz_sealed" => go!(c06::C06, c06_case(data)),
+        "fz_program" => go!(c01::C01, c01_case(data)),
+        "fz_chunks" => go!(c02::C02, c02_case(data)),
+        "fz_xz_valid" => go!(c03::C03, c03_case(data)),
         _ => None,
     }
 }
